@@ -148,6 +148,7 @@ fn check<C: Pv>(c: &Case) -> Report {
     let npo = NpoSel {
         recompose: c.prog.recompose_npo,
         debug_lookups: false,
+        poseidon2: None,
     };
     let setup = match C::setup(&circuit, &pk, &npo) {
         Ok(s) => s,
